@@ -873,7 +873,13 @@ class Converter(utils.ContextWeakrefMixin):
           or name in inner_class_names
       ):
         continue
-      for value in member.FilteredData(self.ctx.exitpoint, strict=False):
+      values = member.FilteredData(self.ctx.exitpoint, strict=False)
+      # Deleted bindings (`del x`, or the hidden `.0` and loop variables of a
+      # comprehension that Python 3.12 inlines into the class body) are not
+      # class attributes; same treatment as for module-level names.
+      for value in values:
+        if isinstance(value, abstract.Deleted):
+          continue
         if isinstance(value, special_builtins.PropertyInstance):
           # For simplicity, output properties as constants, since our parser
           # turns them into constants anyway.
